@@ -168,6 +168,10 @@ func (ma *mountAnalysis) sliceElems(s ssa.Value, at ssa.Instruction, depth int) 
 			return mUnknown, "slice from call"
 		}
 	}
+	if prm, ok := s.(*ssa.Parameter); ok {
+		// a slice handed to a helper: meet over the helper's call sites
+		return ma.param(prm, depth+1, func(arg ssa.Value, site ssa.Instruction) (mstate, string) { return ma.sliceElems(arg, site, depth+1) })
+	}
 	if ms, ok := s.(*ssa.MakeSlice); ok {
 		// elements stored through IndexAddr in the same function
 		st := mUnknown
